@@ -91,6 +91,9 @@ def units(tier):
             return r
         us.append((uid, g))
     wrap("C01.add_other_logk.scaled_addition", M.unit_add_other_logk)
+    wrap("C01.add_other_logk.named_expression_and_form", M.unit_add_other_logk_lookup)
+    from props import c01_ktemp as KT
+    wrap("C01.k_temp.every_logK_at_solution_T_and_P", KT.unit_k_temp)
     wrap("C01.iap_logk_pairing", M.unit_iap_logk_pairing)
     wrap("C01.build_model.prescribed_mole_balance_used_at_both_sites", M.unit_species_list_site)
     wrap("C01.write_mass_action_eqn_x.rewrite_scaled_by_token_coefficient", M.unit_rewrite_scaling)
